@@ -598,7 +598,7 @@ theorem flat_spec (mparts : List Part) (mval : J) (sels : List (List Part × J))
 
 theorem empty_no_projection (style : Style) (mparts : List Part) (mval : J) :
     select style mparts mval [] = none := by
-  cases style <;> simp [select, patchAll, fix, truthyJ]
+  cases style <;> simp [select, patchAllO, fix, truthyJ]
 
 theorem noncontainer_no_projection (style : Style) (mparts : List Part) (mval : J) (sels : List (List Part × J))
     (hc : mval.isContainer = false) : select style mparts mval sels = none := by
